@@ -997,7 +997,7 @@ def m_str(ex, st, fr, path, args, m):
     return NotImplemented
 
 
-@model(r"^(core|std)::str::(from_utf8_unchecked|from_utf8)$|^(core|std)::str::converts::(from_utf8_unchecked|from_utf8)$")
+@model(r"^(?:(core|std)::str::)?(from_utf8_unchecked|from_utf8)$|^(core|std)::str::converts::(from_utf8_unchecked|from_utf8)$")
 def m_from_utf8(ex, st, fr, path, args, m):
     r = args[0]
     rr = slice_ref(r)
@@ -1700,7 +1700,7 @@ def boxed(v):
     return Ref(Cell(v), (), None, False, True)
 
 
-@model(r"^<dyn (?:engine::data_types::(?:data::)?)?Data<.*> as (?:engine::data_types::(?:data::)?)?Data<.*>>::(\w+)$")
+@model(r"^<dyn (?:engine::data_types::(?:data::)?)?Data(?:<.*>)? as (?:engine::data_types::(?:data::)?)?Data(?:<.*>)?>::(\w+)$")
 def m_dyn_data(ex, st, fr, path, args, m):
     op = m.group(1)
     r, data, present, ty = data_view(args[0])
@@ -1757,7 +1757,7 @@ def m_exchange_malloc(ex, st, fr, path, args, m):
     return Ref(Cell(UNINIT), (), None, False, True)
 
 
-@model(r"^<Box<dyn (?:engine::data_types::(?:data::)?)?Data<.*>> as (?:mem_store::column::)?DataSource>::(len|encoding_type)$")
+@model(r"^<Box<dyn (?:engine::data_types::(?:data::)?)?Data(?:<.*>)?> as (?:mem_store::column::)?DataSource>::(len|encoding_type)$")
 def m_boxed_data_source(ex, st, fr, path, args, m):
     r, data, present, ty = data_view(args[0])
     if m.group(1) == "len":
